@@ -84,8 +84,11 @@ pub struct Cond {
 
 impl Cond {
     pub fn holds(&self, strength: u8) -> bool {
+        self.holds_relaxed(strength, &Flags::default())
+    }
+    pub fn holds_relaxed(&self, strength: u8, f: &Flags) -> bool {
         // "now" is 2026; the only bounded window in the alphabet ended in 2020.
-        self.valid_until.is_empty() && strength >= self.min_strength
+        (f.expiry || self.valid_until.is_empty()) && (f.strength || strength >= self.min_strength)
     }
     pub fn contains(&self, child: &Cond) -> bool {
         child.min_strength >= self.min_strength
@@ -240,6 +243,65 @@ impl Dec {
 
 const MAX_DEPTH: usize = 8;
 
+/// One rule of the model switched off — used only to *explain* a disagreement
+/// ("the implementation allows what the model denies; which single rule, if
+/// the model dropped it, would make the model allow too?"), which gives a
+/// violation a root-cause signature. The reference decision uses no relaxation.
+#[derive(Clone, Copy, Debug, Default, PartialEq, Eq)]
+pub struct Flags {
+    pub inactive: bool,
+    pub revoked: bool,
+    pub expiry: bool,
+    pub strength: bool,
+    pub deny: bool,
+    pub scope: bool,
+    pub ceiling: bool,
+    pub delegable: bool,
+    pub attenuation: bool,
+    pub membership: bool,
+    pub action: bool,
+    pub holding: bool,
+}
+
+/// `own` applies to the requesting Principal's own records, `up` to everything
+/// evaluated on behalf of a delegator.
+#[derive(Clone, Copy, Debug, Default, PartialEq, Eq)]
+pub struct Relax {
+    pub own: Flags,
+    pub up: Flags,
+}
+
+impl Relax {
+    fn at(&self, depth: usize) -> &Flags {
+        if depth == 0 { &self.own } else { &self.up }
+    }
+}
+
+pub const RULES: &[&str] = &[
+    "inactive", "revoked", "expiry", "strength", "deny", "scope", "ceiling", "delegable",
+    "attenuation", "membership", "action", "holding",
+];
+
+fn flag(name: &str) -> Flags {
+    let mut f = Flags::default();
+    match name {
+        "inactive" => f.inactive = true,
+        "revoked" => f.revoked = true,
+        "expiry" => f.expiry = true,
+        "strength" => f.strength = true,
+        "deny" => f.deny = true,
+        "scope" => f.scope = true,
+        "ceiling" => f.ceiling = true,
+        "delegable" => f.delegable = true,
+        "attenuation" => f.attenuation = true,
+        "membership" => f.membership = true,
+        "action" => f.action = true,
+        "holding" => f.holding = true,
+        _ => unreachable!(),
+    }
+    f
+}
+
 impl GovModel {
     /// Canonical text of the state (order of independent records removed).
     pub fn canonical(&self) -> String {
@@ -253,22 +315,25 @@ impl GovModel {
         .to_string()
     }
 
-    fn stmt_matches(&self, s: &MStmt, who: Who, strength: u8, perm: &str, r: &Res) -> bool {
+    fn stmt_matches(&self, s: &MStmt, who: Who, strength: u8, perm: &str, r: &Res, f: &Flags) -> bool {
+        // relaxations widen allows only; a deny statement is matched exactly
+        let f = if s.deny { Flags::default() } else { *f };
         (s.principals.is_empty() || s.principals.contains(&who))
             && (s.actions.is_empty() || s.actions.iter().any(|a| a == perm))
-            && (r.is_space() || s.scope.matches(r))
-            && s.cond.holds(strength)
+            && (r.is_space() || f.scope || s.scope.matches(r))
+            && s.cond.holds_relaxed(strength, &f)
     }
 
     /// The authorities a Principal holds in its own right or by delegation.
-    fn candidates(&self, who: Who, depth: usize) -> Vec<Cand> {
+    fn candidates(&self, who: Who, depth: usize, x: &Relax) -> Vec<Cand> {
         let mut out = Vec::new();
-        if !self.active[who] || depth >= MAX_DEPTH {
+        let f = x.at(depth);
+        if (!self.active[who] && !f.inactive) || depth >= MAX_DEPTH {
             return out;
         }
         for g in &self.grants {
-            let mine = if g.to_group { self.group.contains(&who) } else { g.grantee == who };
-            if g.active && mine {
+            let mine = if g.to_group { self.group.contains(&who) || f.membership } else { g.grantee == who };
+            if (g.active || f.revoked) && mine {
                 out.push(Cand {
                     actions: g.actions.clone(),
                     scope: g.scope.clone(),
@@ -280,8 +345,8 @@ impl GovModel {
             }
         }
         for (i, d) in self.delegs.iter().enumerate() {
-            if d.active && d.to == who {
-                if let Some(c) = self.resolve_deleg(i, depth) {
+            if (d.active || f.revoked) && d.to == who {
+                if let Some(c) = self.resolve_deleg(i, depth, x) {
                     out.push(c);
                 }
             }
@@ -289,44 +354,48 @@ impl GovModel {
         out
     }
 
-    fn resolve_deleg(&self, index: usize, depth: usize) -> Option<Cand> {
+    fn resolve_deleg(&self, index: usize, depth: usize, x: &Relax) -> Option<Cand> {
         if depth >= MAX_DEPTH {
             return None;
         }
         let d = &self.delegs[index];
+        // rules about the delegator side are "upstream" of the requester
+        let f = x.at(depth + 1);
         let conferable: Vec<String> = match &d.parent {
             Parent::Missing => return None,
             Parent::Deleg(pi) => {
                 let parent = &self.delegs[*pi];
-                if !parent.active || parent.to != d.from || !parent.may_redelegate {
+                if !(parent.active || f.revoked) || parent.to != d.from || !(parent.may_redelegate || f.delegable) {
                     return None;
                 }
-                let inherited = self.resolve_deleg(*pi, depth + 1)?;
-                if !inherited.scope.contains(&d.scope)
-                    || !inherited.cond.contains(&d.cond)
-                    || !inherited.cons.contains(&d.cons)
+                let inherited = self.resolve_deleg(*pi, depth + 1, x)?;
+                if !f.attenuation
+                    && (!inherited.scope.contains(&d.scope)
+                        || !inherited.cond.contains(&d.cond)
+                        || !inherited.cons.contains(&d.cons))
                 {
                     return None;
                 }
                 d.actions.iter().filter(|a| inherited.actions.contains(a)).cloned().collect()
             }
             Parent::None => {
-                if !self.active[d.from] {
+                if !self.active[d.from] && !f.inactive {
                     return None;
                 }
                 if d.from == 0 {
                     d.actions.clone() // the owner can confer anything
                 } else {
-                    let held = self.candidates(d.from, depth + 1);
+                    let held = self.candidates(d.from, depth + 1, x);
                     d.actions
                         .iter()
                         .filter(|a| {
                             held.iter().any(|c| {
-                                c.delegable
-                                    && c.actions.contains(a)
-                                    && c.scope.contains(&d.scope)
-                                    && c.cond.contains(&d.cond)
-                                    && c.cons.contains(&d.cons)
+                                (c.delegable || f.delegable)
+                                    && (c.actions.contains(a) || f.action)
+                                    && (f.attenuation
+                                        || (c.scope.contains(&d.scope)
+                                            && c.cond.contains(&d.cond)
+                                            && c.cons.contains(&d.cons)))
                             })
                         })
                         .cloned()
@@ -348,11 +417,48 @@ impl GovModel {
     }
 
     pub fn decide(&self, who: Who, strength: u8, perm: &str, r: &Res) -> Dec {
-        self.decide_at(who, strength, perm, r, 0)
+        self.decide_at(who, strength, perm, r, 0, &Relax::default())
     }
 
-    fn decide_at(&self, who: Who, strength: u8, perm: &str, r: &Res, depth: usize) -> Dec {
-        if !self.active[who] || depth >= MAX_DEPTH {
+    pub fn decide_relaxed(&self, who: Who, strength: u8, perm: &str, r: &Res, x: &Relax) -> Dec {
+        self.decide_at(who, strength, perm, r, 0, x)
+    }
+
+    /// Every single-rule relaxation, delegator-side rules first.
+    pub fn relaxations() -> Vec<(String, Relax)> {
+        let mut out = Vec::new();
+        for rule in RULES.iter().filter(|r| **r != "holding") {
+            out.push((format!("delegator-{rule}"), Relax { own: Flags::default(), up: flag(rule) }));
+        }
+        for rule in RULES.iter().filter(|r| **r != "holding") {
+            out.push((format!("own-{rule}"), Relax { own: flag(rule), up: Flags::default() }));
+        }
+        out.push(("delegator-does-not-hold".to_string(), Relax { own: flag("holding"), up: flag("holding") }));
+        out
+    }
+
+    /// The first single rule (own rules first, then upstream ones) whose
+    /// removal makes the model allow — the root cause of an
+    /// "implementation allows, model denies" disagreement.
+    pub fn explain(&self, who: Who, strength: u8, perm: &str, r: &Res) -> String {
+        for (side, own) in [("own", true), ("delegator", false)] {
+            for rule in RULES.iter().filter(|r| **r != "holding") {
+                let x = if own { Relax { own: flag(rule), up: Flags::default() } } else { Relax { own: Flags::default(), up: flag(rule) } };
+                if self.decide_at(who, strength, perm, r, 0, &x).allowed() {
+                    return format!("{side}-{rule}");
+                }
+            }
+        }
+        let x = Relax { own: flag("holding"), up: flag("holding") };
+        if self.decide_at(who, strength, perm, r, 0, &x).allowed() {
+            return "delegator-does-not-hold".to_string();
+        }
+        "unexplained".to_string()
+    }
+
+    fn decide_at(&self, who: Who, strength: u8, perm: &str, r: &Res, depth: usize, x: &Relax) -> Dec {
+        let f = x.at(depth);
+        if (!self.active[who] && !f.inactive) || depth >= MAX_DEPTH {
             return Dec::Deny;
         }
         // an unlabelled element carries the Space default, never `public`
@@ -363,8 +469,8 @@ impl GovModel {
         };
         let stmts: &[MStmt] = self.policy.as_deref().unwrap_or(&[]);
         let mut gate_unspecified = false;
-        for s in stmts.iter().filter(|s| s.deny) {
-            if self.stmt_matches(s, who, strength, perm, &r) {
+        for s in stmts.iter().filter(|s| s.deny && !f.deny) {
+            if self.stmt_matches(s, who, strength, perm, &r, f) {
                 if r.is_space() && !s.scope.is_open() {
                     gate_unspecified = true;
                 } else {
@@ -378,24 +484,28 @@ impl GovModel {
             masks.insert(false);
             open = true;
         }
-        for c in self.candidates(who, depth) {
-            let applies = c.actions.iter().any(|a| a == perm)
-                && (r.is_space() || (c.scope.matches(&r) && c.cons.reaches(&r)))
-                && c.cond.holds(strength);
+        for c in self.candidates(who, depth, x) {
+            let applies = (f.action || c.actions.iter().any(|a| a == perm))
+                && (r.is_space() || ((f.scope || c.scope.matches(&r)) && (f.ceiling || c.cons.reaches(&r))))
+                && c.cond.holds_relaxed(strength, f);
             if !applies {
                 continue;
             }
             // C19: "a delegation never confers more than its delegator currently holds"
             if let Some(delegator) = c.via {
-                if !self.decide_at(delegator, 2, perm, &r, depth + 1).allowed() {
-                    continue;
+                if !f.holding {
+                    match self.decide_at(delegator, 2, perm, &r, depth + 1, x) {
+                        Dec::Allow { .. } => {}
+                        Dec::GateUnspecified => gate_unspecified = true,
+                        Dec::Deny => continue,
+                    }
                 }
             }
             masks.insert(c.cons.masked);
             open |= c.scope.is_open() && c.cons.is_open();
         }
         for s in stmts.iter().filter(|s| !s.deny) {
-            if self.stmt_matches(s, who, strength, perm, &r) && (r.is_space() || s.cons.reaches(&r)) {
+            if self.stmt_matches(s, who, strength, perm, &r, f) && (r.is_space() || f.ceiling || s.cons.reaches(&r)) {
                 masks.insert(s.cons.masked);
                 open |= s.scope.is_open() && s.cons.is_open();
             }
